@@ -1,4 +1,588 @@
-//! metrics: not built yet.
-pub fn run(args: &vh_common::Args) {
-    vh_common::unknown(args)
+//! SyncMetrics (C40): the real `Aggregator` of p2panda/src/streams/sync_metrics.rs against
+//! spec/SyncMetrics.
+//!
+//! replay : every event sequence exported by TLC is fed to a fresh real `Aggregator`; after every
+//!          event `running_sessions()`, `total_bytes_sent()`, `total_bytes_received()` and what
+//!          `process` returned are compared with the state TLC computed (byte counts of the model
+//!          are scaled by a per-behaviour factor so that real magnitudes are exercised).
+//! record : (a) `--lifecycle documented|real`: a harness-side session simulator produces long
+//!          random interleavings of many sessions following the documented lifecycle (with
+//!          `SessionStarted`) or the lifecycle real sessions have (without);
+//!          (b) `--lifecycle sessions`: REAL `TopicLogSync` session pairs (p2panda-sync, SQLite
+//!          stores, sync + live traffic) are run and the events they emit are fed to the
+//!          aggregator.  Every processed event is logged with the aggregator's observables and
+//!          TLC validates the log against Trace_SyncMetrics.
+use std::collections::BTreeMap;
+
+use futures_util::SinkExt;
+use p2panda::verif_api::Aggregator;
+use p2panda_core::{Body, Header, Operation, SigningKey, Topic};
+use p2panda_sync::protocols::{Metrics, TopicLogSyncEvent};
+use p2panda_sync::test_utils::{Peer, TestExtensions, run_protocol};
+use p2panda_sync::{FromSync, ToSync};
+use vh_common::{Args, Outcome, Rng, TraceWriter, Value, catch, json, read_ndjson, unknown};
+
+pub fn run(args: &Args) {
+    match args.mode.as_str() {
+        "replay" => replay(args),
+        "record" => match args.extra.get("lifecycle").map(|s| s.as_str()) {
+            Some("sessions") => record_real_sessions(args),
+            Some("documented") => record_synthetic(args, true),
+            _ => record_synthetic(args, false),
+        },
+        _ => unknown(args),
+    }
+}
+
+/// Abstract byte counters of the spec: sent/received x sync/live.
+#[derive(Clone, Copy, Debug, Default, PartialEq)]
+struct M4 {
+    ss: u32,
+    sl: u32,
+    rs: u32,
+    rl: u32,
+}
+
+impl M4 {
+    fn sent(&self) -> u64 {
+        self.ss as u64 + self.sl as u64
+    }
+    fn recv(&self) -> u64 {
+        self.rs as u64 + self.rl as u64
+    }
+    fn json(&self) -> Value {
+        json!({"ss": self.ss, "sl": self.sl, "rs": self.rs, "rl": self.rl})
+    }
+    fn from_metrics(m: &Metrics) -> M4 {
+        M4 { ss: m.sent_sync_bytes, sl: m.sent_live_bytes, rs: m.received_sync_bytes, rl: m.received_live_bytes }
+    }
+    fn to_metrics(self, ops: u32) -> Metrics {
+        Metrics {
+            // the announced volumes and the operation counters do not enter the byte totals
+            outbound_sync_bytes: self.ss.wrapping_add(17),
+            inbound_sync_bytes: self.rs.wrapping_add(5),
+            outbound_sync_operations: ops,
+            inbound_sync_operations: ops + 1,
+            sent_sync_bytes: self.ss,
+            sent_live_bytes: self.sl,
+            received_sync_bytes: self.rs,
+            received_live_bytes: self.rl,
+            sent_sync_operations: ops,
+            received_sync_operations: ops,
+            sent_live_operations: ops / 2,
+            received_live_operations: ops / 3,
+        }
+    }
+}
+
+fn m4_of(v: &Value, k: u32) -> M4 {
+    let g = |f: &str| (v[f].as_u64().unwrap_or(0) as u32) * k;
+    M4 { ss: g("ss"), sl: g("sl"), rs: g("rs"), rl: g("rl") }
+}
+
+fn some_operation() -> Operation<()> {
+    let sk = SigningKey::generate();
+    let body = Body::new(b"op");
+    let mut header = Header::<()> {
+        version: 1,
+        verifying_key: sk.verifying_key(),
+        signature: None,
+        payload_size: body.size(),
+        payload_hash: Some(body.hash()),
+        seq_num: 0,
+        backlink: None,
+        extensions: (),
+    };
+    header.sign(&sk);
+    Operation { hash: header.hash(), header, body: Some(body) }
+}
+
+fn event_of<E: Clone>(name: &str, m: M4, op: &Operation<E>) -> Option<TopicLogSyncEvent<E>> {
+    let metrics = m.to_metrics(3);
+    Some(match name {
+        "SessionStarted" => TopicLogSyncEvent::SessionStarted,
+        "SyncStarted" => TopicLogSyncEvent::SyncStarted { metrics },
+        "OperationReceived" => TopicLogSyncEvent::OperationReceived { operation: Box::new(op.clone()), metrics },
+        "SyncFinished" => TopicLogSyncEvent::SyncFinished { metrics },
+        "LiveModeStarted" => TopicLogSyncEvent::LiveModeStarted,
+        "SessionFinished" => TopicLogSyncEvent::SessionFinished { metrics },
+        "Failed" => TopicLogSyncEvent::Failed { error: "connection dropped".into() },
+        _ => return None,
+    })
+}
+
+/// What the real aggregator shows after one event.
+#[derive(Clone, Debug, PartialEq)]
+struct Obs {
+    running: u64,
+    tsent: u64,
+    trecv: u64,
+    out: OutObs,
+}
+
+#[derive(Clone, Debug, PartialEq, Default)]
+struct OutObs {
+    kind: String,
+    sent: u64,
+    recv: u64,
+    tsent: u64,
+    trecv: u64,
+    sessions: u64,
+    err: bool,
+    live: bool,
+}
+
+impl OutObs {
+    fn json(&self) -> Value {
+        json!({"kind": self.kind, "sent": self.sent, "recv": self.recv, "tsent": self.tsent, "trecv": self.trecv,
+               "sessions": self.sessions, "err": self.err, "live": self.live})
+    }
+}
+
+fn feed<E: p2panda_core::Extensions>(
+    agg: &mut Aggregator,
+    session_id: u64,
+    remote: p2panda_core::VerifyingKey,
+    event: TopicLogSyncEvent<E>,
+) -> Result<Obs, String> {
+    let res = catch(|| agg.verif_process_observed(FromSync { session_id, remote, event }))?;
+    let out = match res {
+        None => OutObs { kind: "none".into(), ..Default::default() },
+        Some((kind, sent, recv, tsent, trecv, sessions, err, live)) => OutObs {
+            kind: kind.to_string(),
+            sent: sent as u64,
+            recv: recv as u64,
+            tsent: tsent as u64,
+            trecv: trecv as u64,
+            sessions: sessions as u64,
+            err,
+            live,
+        },
+    };
+    Ok(Obs {
+        running: agg.running_sessions() as u64,
+        tsent: agg.total_bytes_sent() as u64,
+        trecv: agg.total_bytes_received() as u64,
+        out,
+    })
+}
+
+/// Harness-side bookkeeping of what the sessions reported (for classifying a wrong total).
+#[derive(Default)]
+struct Books {
+    last_rep: BTreeMap<String, M4>,
+    settled: BTreeMap<String, M4>,
+}
+
+impl Books {
+    fn note(&mut self, s: &str, ev: &str, m: M4) {
+        match ev {
+            "SyncStarted" | "OperationReceived" => {
+                self.last_rep.insert(s.to_string(), m);
+            }
+            "SyncFinished" | "SessionFinished" => {
+                self.last_rep.insert(s.to_string(), m);
+                self.settled.insert(s.to_string(), m);
+            }
+            _ => {}
+        }
+    }
+    fn reported(&self) -> (u64, u64) {
+        (self.last_rep.values().map(|m| m.sent()).sum(), self.last_rep.values().map(|m| m.recv()).sum())
+    }
+    fn settled(&self) -> (u64, u64) {
+        (self.settled.values().map(|m| m.sent()).sum(), self.settled.values().map(|m| m.recv()).sum())
+    }
+}
+
+fn replay(args: &Args) {
+    let behaviours = read_ndjson(args.input.as_ref().expect("--in"));
+    let mut out = Outcome::new(
+        args,
+        "every TLC-exported session event sequence fed to a fresh real Aggregator (byte counts scaled by 1, 1000 or \
+         10^8); running_sessions / total_bytes_sent / total_bytes_received and the returned event's totals compared \
+         with the TLC state after every event; non-trivial = a sequence in which some session delivered SessionFinished \
+         or Failed after transferring bytes; distinct by event sequence",
+    );
+    let op = some_operation();
+    let remote = SigningKey::generate().verifying_key();
+    let mut rng = Rng::new(args.seed);
+    let factors = [1u32, 1000, 100_000_000];
+
+    for b in &behaviours {
+        out.eval();
+        let k = *rng.pick(&factors);
+        let kk = k as u64;
+        let mut agg = Aggregator::new();
+        let mut ids: BTreeMap<String, u64> = BTreeMap::new();
+        let mut books = Books::default();
+        // tolerated difference: an implementation may add a failed session's unsettled bytes
+        let (mut off_s, mut off_r) = (0u64, 0u64);
+        let mut nontrivial = false;
+        let steps = b["steps"].as_array().expect("steps");
+        let mut failed = false;
+        for (i, st) in steps.iter().enumerate() {
+            let s = st["s"].as_str().unwrap();
+            let ev = st["ev"].as_str().unwrap();
+            out.count(&format!("ev_{ev}"));
+            let m = m4_of(&st["m"], k);
+            let Some(event) = event_of(ev, m, &op) else {
+                continue; // bytes moved without an event: nothing reaches the aggregator
+            };
+            let next_id = 100 + ids.len() as u64 * 7;
+            let sid = *ids.entry(s.to_string()).or_insert(next_id);
+            let before = (agg.total_bytes_sent() as u64, agg.total_bytes_received() as u64);
+            let obs = match feed(&mut agg, sid, remote, event) {
+                Ok(o) => o,
+                Err(p) => {
+                    out.violation("C40", "aggregator-panics", format!("step {i} {s}.{ev}: {p}"), b.clone());
+                    failed = true;
+                    break;
+                }
+            };
+            books.note(s, ev, m);
+            if (ev == "SessionFinished" || ev == "Failed") && books.last_rep.get(s).is_some_and(|m| m.sent() + m.recv() > 0) {
+                nontrivial = true;
+            }
+            if ev == "Failed" {
+                let (us, ur) = (st["unaccS"].as_u64().unwrap() * kk, st["unaccR"].as_u64().unwrap() * kk);
+                let (ds, dr) = (obs.tsent.wrapping_sub(before.0), obs.trecv.wrapping_sub(before.1));
+                if (ds, dr) == (us, ur) && (us, ur) != (0, 0) {
+                    off_s += us;
+                    off_r += ur;
+                    out.count("failed_session_unsettled_bytes_added");
+                } else if (ds, dr) == (0, 0) {
+                    out.count("failed_session_unsettled_bytes_not_added");
+                }
+            }
+            let want = Obs {
+                running: st["running"].as_u64().unwrap(),
+                tsent: st["tsent"].as_u64().unwrap() * kk + off_s,
+                trecv: st["trecv"].as_u64().unwrap() * kk + off_r,
+                out: OutObs {
+                    kind: st["out"]["kind"].as_str().unwrap().to_string(),
+                    sent: st["out"]["sent"].as_u64().unwrap() * kk,
+                    recv: st["out"]["recv"].as_u64().unwrap() * kk,
+                    tsent: st["out"]["tsent"].as_u64().unwrap() * kk,
+                    trecv: st["out"]["trecv"].as_u64().unwrap() * kk,
+                    sessions: st["out"]["sessions"].as_u64().unwrap(),
+                    err: st["out"]["err"].as_bool().unwrap(),
+                    live: st["out"]["live"].as_bool().unwrap(),
+                },
+            };
+            let mut want_out = want.out.clone();
+            if want_out.kind == "SyncEnded" || want_out.kind == "OperationReceived" {
+                want_out.tsent += off_s;
+                want_out.trecv += off_r;
+            }
+            let (rep_s, rep_r) = books.reported();
+            let (set_s, set_r) = books.settled();
+            let problem = if obs.tsent != want.tsent || obs.trecv != want.trecv {
+                let sig = if obs.tsent > rep_s || obs.trecv > rep_r {
+                    "bytes-counted-twice"
+                } else if obs.tsent < set_s || obs.trecv < set_r {
+                    "settled-bytes-missing"
+                } else {
+                    "totals-differ-from-spec"
+                };
+                Some((sig, format!(
+                    "after step {i} {s}.{ev}: totals sent/received = {}/{}, expected {}/{} (all sessions together reported {rep_s}/{rep_r})",
+                    obs.tsent, obs.trecv, want.tsent, want.trecv
+                )))
+            } else if obs.running != want.running {
+                Some(("running-sessions-wrong", format!(
+                    "after step {i} {s}.{ev}: running_sessions = {}, started minus ended = {}",
+                    obs.running, want.running
+                )))
+            } else if obs.out != want_out {
+                let sig = if obs.out.kind != want_out.kind { "event-presence-differs" } else { "reported-totals-differ" };
+                Some((sig, format!("after step {i} {s}.{ev}: process returned {:?}, expected {:?}", obs.out, want_out)))
+            } else {
+                None
+            };
+            if let Some((sig, detail)) = problem {
+                out.violation("C40", sig, detail, b.clone());
+                failed = true;
+                break;
+            }
+        }
+        if nontrivial {
+            out.mark_distinct(
+                steps.iter().map(|s| format!("{}.{}.{}", s["s"].as_str().unwrap(), s["ev"].as_str().unwrap(), s["m"])).collect::<Vec<_>>().join(","),
+            );
+        }
+        if !failed {
+            out.sample(json!({"cfg": b["cfg"], "events": steps.len(), "factor": k}));
+        }
+    }
+    out.write(args);
+}
+
+// ------------------------------------------------------------------------------------------
+// impl -> spec, synthetic sessions
+
+#[derive(Clone, Copy, PartialEq, Debug)]
+enum Ph {
+    Init,
+    Started,
+    Sync,
+    Synced,
+    Live,
+    Closed,
+}
+
+fn log_event(w: &mut TraceWriter, ev: &str, s: &str, m: M4, obs: &Obs) {
+    w.event(json!({
+        "ev": ev, "s": s, "m": m.json(),
+        "running": obs.running, "tsent": obs.tsent, "trecv": obs.trecv, "out": obs.out.json(),
+    }));
+}
+
+const POOL: usize = 12;
+
+fn pool() -> Vec<String> {
+    (1..=POOL).map(|i| format!("s{i}")).collect()
+}
+
+fn record_synthetic(args: &Args, documented: bool) {
+    let mut rng = Rng::new(args.seed ^ if documented { 0xd0c } else { 0x4ea1 });
+    let mut w = TraceWriter::create(args.out.as_ref().expect("--out"));
+    let mut out = Outcome::new(
+        args,
+        "seeded random interleavings of 2-12 synthetic sessions (sync + live traffic, up to 10^6 bytes per transfer, \
+         clean end or failure at any point) processed by the real Aggregator, every event logged with the aggregator's \
+         observables and validated by TLC; non-trivial = a run with at least one SessionFinished after live traffic; \
+         distinct by run",
+    );
+    let op = some_operation();
+    let remote = SigningKey::generate().verifying_key();
+    let lifecycle = if documented { "documented" } else { "real" };
+    let n = if args.n == 0 { 30 } else { args.n };
+    for run in 0..n {
+        let nsess = rng.range(2, POOL as u64) as usize;
+        let names: Vec<String> = pool()[..nsess].to_vec();
+        w.event(json!({"ev": "Reset", "run": run, "lifecycle": lifecycle, "pool": pool()}));
+        let mut agg = Aggregator::new();
+        let mut ph = vec![Ph::Init; nsess];
+        let mut m = vec![M4::default(); nsess];
+        let mut live_traffic_finished = false;
+        let mut bad = false;
+        while ph.iter().any(|p| *p != Ph::Closed) && !bad {
+            let open: Vec<usize> = (0..nsess).filter(|i| ph[*i] != Ph::Closed).collect();
+            let i = *rng.pick(&open);
+            let bytes = match rng.below(3) {
+                0 => rng.range(1, 50),
+                1 => rng.range(100, 5000),
+                _ => rng.range(10_000, 1_000_000),
+            } as u32;
+            // (event or "Transfer", new phase)
+            let fail = rng.chance(1, 25);
+            let (ev, next): (&str, Ph) = match ph[i] {
+                Ph::Init => {
+                    if documented {
+                        ("SessionStarted", Ph::Started)
+                    } else if fail {
+                        ("Failed", Ph::Closed)
+                    } else {
+                        ("SyncStarted", Ph::Sync)
+                    }
+                }
+                Ph::Started => {
+                    if fail {
+                        ("Failed", Ph::Closed)
+                    } else {
+                        ("SyncStarted", Ph::Sync)
+                    }
+                }
+                Ph::Sync => match rng.below(10) {
+                    0..=2 => {
+                        m[i].ss += bytes;
+                        ("Transfer", Ph::Sync)
+                    }
+                    3..=6 => {
+                        m[i].rs += bytes;
+                        ("OperationReceived", Ph::Sync)
+                    }
+                    7..=8 => ("SyncFinished", Ph::Synced),
+                    _ if fail => ("Failed", Ph::Closed),
+                    _ => ("SyncFinished", Ph::Synced),
+                },
+                Ph::Synced => match rng.below(4) {
+                    0 => ("SessionFinished", Ph::Closed),
+                    1 if fail => ("Failed", Ph::Closed),
+                    _ => ("LiveModeStarted", Ph::Live),
+                },
+                Ph::Live => match rng.below(10) {
+                    0..=3 => {
+                        m[i].sl += bytes;
+                        ("Transfer", Ph::Live)
+                    }
+                    4..=7 => {
+                        m[i].rl += bytes;
+                        ("OperationReceived", Ph::Live)
+                    }
+                    8 if fail => ("Failed", Ph::Closed),
+                    _ => {
+                        if m[i].sl + m[i].rl > 0 {
+                            live_traffic_finished = true;
+                        }
+                        ("SessionFinished", Ph::Closed)
+                    }
+                },
+                Ph::Closed => unreachable!(),
+            };
+            ph[i] = next;
+            if ev == "Transfer" {
+                w.event(json!({"ev": "Transfer", "s": names[i], "m": m[i].json()}));
+                continue;
+            }
+            let event = event_of(ev, m[i], &op).unwrap();
+            match feed(&mut agg, 1000 + i as u64, remote, event) {
+                Ok(obs) => log_event(&mut w, ev, &names[i], m[i], &obs),
+                Err(p) => {
+                    out.violation("C40", "aggregator-panics", format!("run {run} {}.{ev}: {p}", names[i]), json!({"run": run}));
+                    bad = true;
+                }
+            }
+        }
+        out.eval();
+        if live_traffic_finished {
+            out.mark_distinct(format!("run{run}"));
+        }
+        out.sample(json!({"run": run, "sessions": nsess, "lifecycle": lifecycle}));
+    }
+    let (events, runs) = w.finish();
+    out.set_trace(events, runs);
+    out.write(args);
+}
+
+// ------------------------------------------------------------------------------------------
+// impl -> spec, REAL sessions (TopicLogSync pairs of p2panda-sync)
+
+fn record_real_sessions(args: &Args) {
+    let mut rng = Rng::new(args.seed ^ 0x5e55);
+    let mut w = TraceWriter::create(args.out.as_ref().expect("--out"));
+    let mut out = Outcome::new(
+        args,
+        "real TopicLogSync session pairs (SQLite stores, random logs on both sides, optional live mode with forwarded \
+         operations and Close) run to completion; the events each session emitted are fed, randomly interleaved, to \
+         the real Aggregator; logged and validated by TLC with Lifecycle = real; non-trivial = a run whose sessions \
+         transferred bytes; distinct by run",
+    );
+    let n = if args.n == 0 { 10 } else { args.n };
+    let rt = tokio::runtime::Builder::new_multi_thread().worker_threads(2).enable_all().build().expect("runtime");
+    let remote = SigningKey::generate().verifying_key();
+    let mut peer_seed = args.seed.wrapping_mul(1000);
+    for run in 0..n {
+        let pairs = rng.range(1, 3) as usize;
+        // per session: the events it emitted, in order
+        let mut sessions: Vec<Vec<TopicLogSyncEvent<TestExtensions>>> = Vec::new();
+        let mut seen_session_started = false;
+        for _ in 0..pairs {
+            let live = rng.chance(2, 3);
+            let (na, nb) = (rng.range(0, 4) as usize, rng.range(0, 4) as usize);
+            let (la, lb) = (rng.range(0, 2) as usize, rng.range(0, 2) as usize);
+            let sizes: Vec<usize> = (0..12).map(|_| rng.range(1, 3000) as usize).collect();
+            peer_seed += 2;
+            let seed = peer_seed;
+            let evs = rt.block_on(async move {
+                let topic = Topic::random();
+                let mut a = Peer::new(seed).await;
+                let mut b = Peer::new(seed + 1).await;
+                let mut k = 0;
+                for _ in 0..na {
+                    a.create_operation(&Body::new(&vec![7u8; sizes[k % 12]]), 0).await;
+                    k += 1;
+                }
+                for _ in 0..nb {
+                    b.create_operation(&Body::new(&vec![9u8; sizes[k % 12]]), 0).await;
+                    k += 1;
+                }
+                let logs = BTreeMap::from([(a.id(), vec![0usize]), (b.id(), vec![0usize])]);
+                a.associate(&topic, &logs).await;
+                b.associate(&topic, &logs).await;
+                let (pa, mut rxa, mut txa) = a.topic_sync_protocol(topic.clone(), live);
+                let (pb, mut rxb, mut txb) = b.topic_sync_protocol(topic.clone(), live);
+                if live {
+                    // operations published locally while the session is live (log 1: not part of sync)
+                    for _ in 0..la {
+                        let body = Body::new(&vec![1u8; sizes[k % 12]]);
+                        k += 1;
+                        let (header, _) = a.create_operation(&body, 1).await;
+                        let _ = txa.send(ToSync::Payload(Operation { hash: header.hash(), header, body: Some(body) })).await;
+                    }
+                    for _ in 0..lb {
+                        let body = Body::new(&vec![2u8; sizes[k % 12]]);
+                        k += 1;
+                        let (header, _) = b.create_operation(&body, 1).await;
+                        let _ = txb.send(ToSync::Payload(Operation { hash: header.hash(), header, body: Some(body) })).await;
+                    }
+                    let _ = txa.send(ToSync::Close).await;
+                }
+                let _ = run_protocol(pa, pb).await;
+                let mut ea = Vec::new();
+                while let Ok(e) = rxa.try_recv() {
+                    ea.push(e);
+                }
+                let mut eb = Vec::new();
+                while let Ok(e) = rxb.try_recv() {
+                    eb.push(e);
+                }
+                (ea, eb)
+            });
+            sessions.push(evs.0);
+            sessions.push(evs.1);
+        }
+        // the lifecycle is what the sessions really did: `documented` iff they announce themselves
+        let lifecycle = if sessions.iter().any(|s| matches!(s.first(), Some(TopicLogSyncEvent::SessionStarted))) {
+            "documented"
+        } else {
+            "real"
+        };
+        w.event(json!({"ev": "Reset", "run": run, "lifecycle": lifecycle, "pool": pool()}));
+        let mut agg = Aggregator::new();
+        let mut idx = vec![0usize; sessions.len()];
+        let mut bytes = 0u64;
+        loop {
+            let open: Vec<usize> = (0..sessions.len()).filter(|i| idx[*i] < sessions[*i].len()).collect();
+            if open.is_empty() {
+                break;
+            }
+            let i = *rng.pick(&open);
+            let event = sessions[i][idx[i]].clone();
+            idx[i] += 1;
+            let (name, m) = match &event {
+                TopicLogSyncEvent::SessionStarted => {
+                    seen_session_started = true;
+                    ("SessionStarted", M4::default())
+                }
+                TopicLogSyncEvent::SyncStarted { metrics } => ("SyncStarted", M4::from_metrics(metrics)),
+                TopicLogSyncEvent::OperationReceived { metrics, .. } => ("OperationReceived", M4::from_metrics(metrics)),
+                TopicLogSyncEvent::SyncFinished { metrics } => ("SyncFinished", M4::from_metrics(metrics)),
+                TopicLogSyncEvent::LiveModeStarted => ("LiveModeStarted", M4::default()),
+                TopicLogSyncEvent::SessionFinished { metrics } => ("SessionFinished", M4::from_metrics(metrics)),
+                TopicLogSyncEvent::Failed { .. } => ("Failed", M4::default()),
+            };
+            out.count(&format!("real_ev_{name}"));
+            bytes += m.sent() + m.recv();
+            match feed(&mut agg, 500 + i as u64, remote, event) {
+                Ok(obs) => log_event(&mut w, name, &format!("s{}", i + 1), m, &obs),
+                Err(p) => {
+                    out.violation("C40", "aggregator-panics", format!("run {run} s{}.{name}: {p}", i + 1), json!({"run": run}));
+                    break;
+                }
+            }
+        }
+        if seen_session_started {
+            out.count("real_sessions_emit_SessionStarted");
+        }
+        out.eval();
+        if bytes > 0 {
+            out.mark_distinct(format!("run{run}"));
+        }
+        out.sample(json!({"run": run, "sessions": sessions.len(), "events": sessions.iter().map(|s| s.len()).sum::<usize>()}));
+    }
+    let (events, runs) = w.finish();
+    out.set_trace(events, runs);
+    out.write(args);
 }
